@@ -76,6 +76,9 @@ class CompiledFunction:
     is_arrow: bool = False  # Arrow functions take this from their creator
     # A named function expression whose name is not redeclared in it
     binds_own_name: bool = False
+    # Program code: the variables it declares with var anywhere outside functions
+    # (they exist, as undefined, from the start of the program)
+    global_vars: List[str] = field(default_factory=list)
 
 
 @dataclass
@@ -199,12 +202,35 @@ class Compiler:
 
         visit(root)
 
+    @staticmethod
+    def _program_var_names(body: List[Node]) -> set:
+        """Names declared with var in program code, outside functions (iterative:
+        blocks may be nested deeply)."""
+        names: set = set()
+        pending = list(body)
+        while pending:
+            node = pending.pop()
+            if isinstance(
+                node, (FunctionDeclaration, FunctionExpression, ArrowFunctionExpression)
+            ):
+                continue
+            if isinstance(node, VariableDeclaration):
+                names.update(decl.id.name for decl in node.declarations)
+            for value in node.__dict__.values():
+                if isinstance(value, Node):
+                    pending.append(value)
+                elif isinstance(value, list):
+                    pending.extend(v for v in value if isinstance(v, Node))
+        return names
+
     def compile(self, node: Program) -> CompiledFunction:
         """Compile a program to bytecode."""
         body = node.body
 
+        declared: set = set()
         try:
             self._scope_catch_parameters(node)
+            declared = self._program_var_names(body)
             ends_with_declaration = bool(body) and isinstance(
                 body[-1], FunctionDeclaration
             )
@@ -234,6 +260,7 @@ class Compiler:
             bytecode=bytes(self.bytecode),
             constants=self.constants,
             locals=self.locals,
+            global_vars=sorted(declared),
             num_locals=len(self.locals),
             source_map=self.source_map,
         )
